@@ -9,7 +9,9 @@
 //	gc|<log|mirror>|<size, - or skip>|<directory before the run>|=>|<status>:<removed paths>
 //
 // which the extracted Coq model (GC/Model.v clean_root) must reproduce, plus implementation-side
-// monitors (mon_*), which must all say "holds".
+// monitors (mon_*), which must all say "holds". multi.go: ONE run of the binary over a config
+// with several logs and a witness directory with several mirrored logs; every tree of the run is
+// judged like a single-tree run, and the whole run by a gcmulti line (GC/Multi.v clean_run).
 package main
 
 import (
@@ -26,6 +28,7 @@ import (
 	"regexp"
 	"sort"
 	"strings"
+	"time"
 
 	"filippo.io/mldsa"
 )
@@ -151,6 +154,7 @@ func (h *harness) gcRun(tag, flavour, runDir, listDir, size string) (status stri
 	} else {
 		h.mon("unchanged", tag, nil)
 	}
+	h.mon("edge_kept", tag, checkEdgeKept(flavour, size, before, after))
 	return status, removed, after
 }
 
@@ -162,6 +166,7 @@ func main() {
 	big := flag.Bool("big", false, "include the 65535..65537 history")
 	npath := flag.Int("paths", 300, "number of torchwood path cases")
 	nofixed := flag.Bool("nofixed", false, "skip the fixed scenarios (used when replaying recorded lines)")
+	nmulti := flag.Int("multi", 10, "number of synthetic multi-tree runs (one run of the binary over several directories)")
 	flag.Parse()
 	if *bin == "" {
 		fmt.Fprintln(os.Stderr, "need -bin")
@@ -188,18 +193,33 @@ func main() {
 		panic(err)
 	}
 
+	t0 := time.Now()
+	phase := func(name string) {
+		fmt.Fprintf(h.out, "# phase %s: %.2fs\n", name, time.Since(t0).Seconds())
+		t0 = time.Now()
+	}
 	if !*nofixed {
 		h.pathCases(*npath)
 		h.tileSizeCases()
 		h.fixedScenarios()
+		phase("fixed")
 	}
 	for i := 0; i < *nsynth; i++ {
 		h.synthScenario(i)
 	}
+	phase("synth")
 	h.realScenarios(*nreal, *big)
+	phase("real")
 	if !*nofixed {
 		h.mirrorScenarios()
+		phase("mirror")
+		h.multiRealScenarios()
+		phase("multi-real")
 	}
+	for i := 0; i < *nmulti; i++ {
+		h.multiSynthScenario(i)
+	}
+	phase("multi-synth")
 
 	keys := make([]string, 0, len(h.stats))
 	for k := range h.stats {
